@@ -35,6 +35,13 @@ struct VerifAlloc;
 
 unsafe impl GlobalAlloc for VerifAlloc {
     unsafe fn alloc(&self, l: Layout) -> *mut u8 {
+        // a conversion that copies (`Vec::from(Bytes)` of a shared buffer) allocates its destination right before the plain,
+        // un-instrumented copy: loom never preempts inside plain code, so the model asks for one scheduling point here
+        // (one-shot, only for the size it announced, only on the announcing thread)
+        if l.align() == 1 && l.size() != 0 && YIELD_ON_COPY.with(|c| c.get() == l.size() || c.get() == usize::MAX) {
+            YIELD_ON_COPY.with(|c| c.set(0));
+            thread::yield_now();
+        }
         System.alloc(l)
     }
     unsafe fn dealloc(&self, p: *mut u8, l: Layout) {
@@ -45,8 +52,11 @@ unsafe impl GlobalAlloc for VerifAlloc {
                     s.size.store(l.size(), O::SeqCst);
                     let g = s.ghost.load(O::SeqCst) as *const UnsafeCell<()>;
                     if !g.is_null() {
-                        // the deallocation is a write to the buffer
-                        (*g).with_mut(|_| ());
+                        // the deallocation is a write to the buffer: poison it, and keep it out of circulation (quarantine by
+                        // leaking these few bytes), so that a copy that runs after the release reads 0xDD, not stale good data
+                        (*g).with_mut(|_| std::ptr::write_bytes(p, 0xDD, l.size()));
+                        BUSY.store(false, O::SeqCst);
+                        return;
                     }
                 }
             }
@@ -54,6 +64,11 @@ unsafe impl GlobalAlloc for VerifAlloc {
         }
         System.dealloc(p, l)
     }
+}
+
+std::thread_local! {
+    /// size of the copy destination the current thread is about to allocate (0: none, usize::MAX: whatever size); see `alloc`
+    static YIELD_ON_COPY: std::cell::Cell<usize> = const { std::cell::Cell::new(0) };
 }
 
 #[global_allocator]
@@ -241,8 +256,11 @@ fn p3_into_vec_vs_read_drop() {
         });
         let t2 = thread::spawn(move || {
             let want: Vec<u8> = DATA[b.as_ptr() as usize - base..].to_vec();
+            // if the conversion copies, let the other thread run between the allocation of the destination and the copy
+            YIELD_ON_COPY.with(|c| c.set(b.len()));
             let mut v: Vec<u8> = b.into();
-            assert_eq!(&v[..], &want[..]);
+            YIELD_ON_COPY.with(|c| c.set(0));
+            assert_eq!(&v[..], &want[..], "Vec::from(Bytes) must return the bytes of the view (read before the storage is released)");
             let zero_copy = v.as_ptr() as usize == base;
             if zero_copy {
                 g2.writing(|| v[0] = b'X');
@@ -306,7 +324,11 @@ fn p5_two_exclusive_attempts() {
         let b = a.clone();
         let (g1, g2) = (g.clone(), g.clone());
         let t1 = thread::spawn(move || {
+            let want: Vec<u8> = DATA[a.as_ptr() as usize - base..][..a.len()].to_vec();
+            YIELD_ON_COPY.with(|c| c.set(a.len()));
             let v: Vec<u8> = a.into();
+            YIELD_ON_COPY.with(|c| c.set(0));
+            assert_eq!(&v[..], &want[..], "Vec::from(Bytes) must return the bytes of the view (read before the storage is released)");
             let z = v.as_ptr() as usize == base;
             if z {
                 g1.writing(|| ());
@@ -315,7 +337,11 @@ fn p5_two_exclusive_attempts() {
         });
         let start = b.as_ptr() as usize;
         let t2 = thread::spawn(move || {
+            let want: Vec<u8> = DATA[b.as_ptr() as usize - base..][..b.len()].to_vec();
+            YIELD_ON_COPY.with(|c| c.set(b.len()));
             let m = BytesMut::from(b);
+            YIELD_ON_COPY.with(|c| c.set(0));
+            assert_eq!(&m[..], &want[..], "BytesMut::from(Bytes) must return the bytes of the view (read before the storage is released)");
             let z = m.as_ptr() as usize == start;
             if z {
                 g2.writing(|| ());
@@ -360,6 +386,36 @@ fn p6_bytes_mut_reclaim_vs_drop() {
                     g2.writing(|| m.put_slice(b"0123456789abcd"));
                 }
             }
+            drop(m);
+        });
+        t1.join().unwrap();
+        t2.join().unwrap();
+        g.finish(1);
+    });
+}
+
+/// P6b: a non-empty BytesMut half reserves beyond its capacity while the other half is dropped elsewhere: it is either alone (grows
+/// in place / moves its bytes itself) or copies its bytes out of the shared buffer — which it must do before giving up its reference.
+#[test]
+fn p6b_reserve_copy_vs_drop() {
+    model(|| {
+        let mut m = BytesMut::with_capacity(16);
+        m.put_slice(DATA);
+        let p = m.as_ptr();
+        let g = Ghost::register(0, p);
+        let head = m.split_to(4);
+        let (g1, _g2) = (g.clone(), g.clone());
+        let t1 = thread::spawn(move || {
+            g1.reading(|| assert_eq!(&head[..], &DATA[..4]));
+            drop(head);
+        });
+        let t2 = thread::spawn(move || {
+            let mut m = m;
+            YIELD_ON_COPY.with(|c| c.set(usize::MAX));
+            m.reserve(64);
+            YIELD_ON_COPY.with(|c| c.set(0));
+            assert_eq!(&m[..], &DATA[4..], "reserve must keep the contents (copied out before the shared storage is released)");
+            assert!(m.capacity() - m.len() >= 64);
             drop(m);
         });
         t1.join().unwrap();
